@@ -39,6 +39,7 @@ CONFIGS = {
     'int64': ['-O1', '-DUSE_FORCE_WIDEMUL_INT64=1', '-DECMULT_WINDOW_SIZE=2', '-DCOMB_BLOCKS=2', '-DCOMB_TEETH=5'],
     'verify': ['-O1', '-DVERIFY', '-DECMULT_WINDOW_SIZE=15', '-DCOMB_BLOCKS=43', '-DCOMB_TEETH=6'],
     'o2': ['-O2', '-DECMULT_WINDOW_SIZE=15', '-DCOMB_BLOCKS=43', '-DCOMB_TEETH=6'],
+    'tsan': ['-O1', '-fsanitize=thread', '-DECMULT_WINDOW_SIZE=15', '-DCOMB_BLOCKS=43', '-DCOMB_TEETH=6'],
 }
 SAN = ['-fsanitize=address,undefined', '-fno-sanitize-recover=all']
 
@@ -335,7 +336,11 @@ def main():
             p = write_replay(pid, seed, len(violations), {'kind': 'harness-build-failed', 'config': conf, 'output': err})
             violations.append((p, 'no-failing-input-found')); continue
         t1 = time.time()
-        iout = run_impl(exe, lines, wrapper=spec.get('wrapper', ()))
+        only = spec.get('only')
+        sel = [k for k, l in enumerate(lines) if (not only) or l.split(' ', 1)[0] in only]
+        sub_out = run_impl(exe, [lines[k] for k in sel], env_extra=spec.get('env'), wrapper=spec.get('wrapper', ()))
+        iout = ['skip'] * len(lines)
+        for k, o in zip(sel, sub_out): iout[k] = o
         log('impl[%s] done in %.1fs' % (conf, time.time() - t1))
         nd = 0
         for k, (l, m, i) in enumerate(zip(lines, mout, iout)):
@@ -345,6 +350,7 @@ def main():
                 hist[fam]['cases'] += 1; hist[fam]['classes'].add(tags[k][1])
                 key = i.split(' ')[0] if i else ''
                 hist[fam]['outs'][key] = hist[fam]['outs'].get(key, 0) + 1
+            if i == 'skip': continue
             if m != i or m.startswith('ERR') or i.startswith('ERR'):
                 if l in known_lines:
                     known_hit.add(l); continue
